@@ -11,7 +11,17 @@ const INDENT_SIZE: usize = 2;
 /// Format a Blots expression with intelligent line breaking
 pub fn format_expr(expr: &SpannedExpr, max_columns: Option<usize>) -> String {
     let max_cols = max_columns.unwrap_or(DEFAULT_MAX_COLUMNS);
-    format_expr_impl(expr, max_cols, 0)
+    protect_statement_start(format_expr_impl(expr, max_cols, 0))
+}
+
+/// A statement that starts with `-` would be read as the continuation of the previous line
+/// (`a = 1` followed by `-b` is `a = 1 - b`), so such a statement keeps its parentheses.
+pub fn protect_statement_start(statement: String) -> String {
+    if statement.starts_with('-') {
+        format!("({})", statement)
+    } else {
+        statement
+    }
 }
 
 /// Internal formatting implementation with indentation tracking
@@ -554,7 +564,11 @@ fn format_do_block_multiline(
         // Expression
         result.push('\n');
         result.push_str(&indent_str);
-        result.push_str(&format_expr_impl(&stmt.node, max_cols, inner_indent));
+        result.push_str(&protect_statement_start(format_expr_impl(
+            &stmt.node,
+            max_cols,
+            inner_indent,
+        )));
         // Trailing comment
         if let Some(trailing) = &stmt.trailing {
             result.push_str("  ");
